@@ -339,12 +339,71 @@ func evalBVBin(op string, a, b uint64, w int) (uint64, bool) {
 	return 0, false
 }
 
+// leafRange bounds (unsigned) the value of an ite-tree whose leaves are constants.
+func leafRange(t *Term, depth int) (lo, hi uint64, ok bool) {
+	if t.isConst() {
+		return t.cval, t.cval, true
+	}
+	if t.op == "ite" && depth < 40 {
+		l1, h1, ok1 := leafRange(t.args[1], depth+1)
+		if !ok1 {
+			return 0, 0, false
+		}
+		l2, h2, ok2 := leafRange(t.args[2], depth+1)
+		if !ok2 {
+			return 0, 0, false
+		}
+		if l2 < l1 {
+			l1 = l2
+		}
+		if h2 > h1 {
+			h1 = h2
+		}
+		return l1, h1, true
+	}
+	return 0, 0, false
+}
+
 func (tt *TermTable) BVCmp(op string, a, b *Term) *Term {
 	if a.sort != b.sort {
 		panic(fmt.Sprintf("BVCmp %s sort mismatch %v %v", op, a.sort, b.sort))
 	}
 	if a.isConst() && b.isConst() {
 		return tt.Bool(evalBVCmp(op, a.cval, b.cval, a.sort.W))
+	}
+	// unsigned comparisons of a small-range ite-tree with a constant fold when the
+	// whole range lies on one side (values below 2^(w-1), so signed agrees)
+	if (a.op == "ite" && b.isConst()) || (b.op == "ite" && a.isConst()) {
+		lo1, hi1, ok1 := leafRange(a, 0)
+		lo2, hi2, ok2 := leafRange(b, 0)
+		half := uint64(1) << uint(a.sort.W-1)
+		if ok1 && ok2 && hi1 < half && hi2 < half {
+			all := func(f func(x, y uint64) bool) (bool, bool) { // (decided, value)
+				t1 := f(lo1, hi2) && f(hi1, lo2) && f(lo1, lo2) && f(hi1, hi2)
+				f1 := !f(lo1, hi2) && !f(hi1, lo2) && !f(lo1, lo2) && !f(hi1, hi2)
+				if t1 {
+					return true, true
+				}
+				if f1 {
+					return true, false
+				}
+				return false, false
+			}
+			var dec, val bool
+			switch op {
+			case "bvult", "bvslt":
+				dec, val = all(func(x, y uint64) bool { return x < y })
+			case "bvule", "bvsle":
+				dec, val = all(func(x, y uint64) bool { return x <= y })
+			case "bvugt", "bvsgt":
+				dec, val = all(func(x, y uint64) bool { return x > y })
+			case "bvuge", "bvsge":
+				dec, val = all(func(x, y uint64) bool { return x >= y })
+			}
+			if dec {
+				return tt.Bool(val)
+			}
+		}
 	}
 	return tt.mk(op, sortBool, 0, "", 0, 0, a, b)
 }
